@@ -8,7 +8,7 @@ from manifest_text import TEXT, NOT_APPLICABLE, ENGINES
 
 all_ids = [json.loads(l)['id'] for l in open(os.path.join(VERIF, 'properties.jsonl'))]
 hooks = subprocess.run(['git', '-C', '/repo', 'log', '--format=%H %s'], stdout=subprocess.PIPE).stdout.decode().splitlines()
-hook_commits = [l.split()[0] for l in hooks if ' verif hooks:' in l]
+hook_commits = [l.split()[0] for l in hooks if ' verif hooks:' in l or ' verif hook:' in l]
 checks = []
 for pid in all_ids:
     if pid not in PROPS:
